@@ -389,3 +389,18 @@ M('c18b-conn-open-dangling-again', 'C18', 'break', 'htp/htp_connection.c', "    
 M('c18b-set-line-frees-without-clearing', 'C18', 'break', TX, "    if (tx->connp->cfg->parse_request_line(tx->connp) != HTP_OK) return HTP_ERROR;\n\n    return HTP_OK;\n}\n\nvoid htp_tx_req_set_parsed_uri", "    if (tx->connp->cfg->parse_request_line(tx->connp) != HTP_OK) {\n        bstr_free(tx->request_line);\n        return HTP_ERROR;\n    }\n\n    return HTP_OK;\n}\n\nvoid htp_tx_req_set_parsed_uri", 'C18.b')
 M('c18b-keep-clear-through-temp', 'C18', 'keep', 'htp/htp_parsers.c', "        bstr_free(connp->in_tx->request_auth_username);\n        connp->in_tx->request_auth_username = NULL;", "        bstr *tmpu = connp->in_tx->request_auth_username;\n        connp->in_tx->request_auth_username = NULL;\n        bstr_free(tmpu);")
 M('c18b-res-line-free-without-null', 'C18', 'break', RS, "            if (connp->out_tx->response_status != NULL) {\n                bstr_free(connp->out_tx->response_status);\n                connp->out_tx->response_status = NULL;\n            }", "            if (connp->out_tx->response_status != NULL) {\n                bstr_free(connp->out_tx->response_status);\n            }", 'C18.b')
+
+# ---------------- C03
+M('c03a-req-headers-drop-minus1-test', 'C03', 'break', RQ, "                if (connp->in_next_byte != -1 && htp_is_folding_char(connp->in_next_byte) == 0) {", "                if (htp_is_folding_char(connp->in_next_byte) == 0) {", 'C03.a')
+M('c03a-keep-ge-zero', 'C03', 'keep', RQ, "                if (connp->in_next_byte != -1 && htp_is_folding_char(connp->in_next_byte) == 0) {", "                if (!(connp->in_next_byte == -1) && htp_is_folding_char(connp->in_next_byte) == 0) {")
+M('c03a-res-headers-cr-peek-no-defer', 'C03', 'break', RS, "                OUT_PEEK_NEXT(connp);\n                if (connp->out_next_byte == -1) {\n                    return HTP_DATA_BUFFER;\n                } else if (connp->out_next_byte == LF) {\n                    OUT_COPY_BYTE_OR_RETURN(connp);\n                    if (lfcrending) {", "                OUT_PEEK_NEXT(connp);\n                if (connp->out_next_byte == LF) {\n                    OUT_COPY_BYTE_OR_RETURN(connp);\n                    if (lfcrending) {", 'C03.a')
+M('c03a-res-line-cr-peek-no-defer', 'C03', 'break', RS, "            if (connp->out_next_byte == -1) {\n                return HTP_DATA_BUFFER;\n            } else if (connp->out_next_byte == LF) {\n                continue;\n            }\n            connp->out_next_byte = LF;", "            if (connp->out_next_byte == LF) {\n                continue;\n            }\n            connp->out_next_byte = LF;", 'C03.a')
+M('c03a-req-line-completes-at-chunk-end', 'C03', 'break', RQ, "        if (connp->in_status == HTP_STREAM_CLOSED && connp->in_next_byte == -1) {\n            return htp_connp_REQ_LINE_complete(connp);", "        if (connp->in_next_byte == -1 && connp->in_current_consume_offset < connp->in_current_read_offset) {\n            return htp_connp_REQ_LINE_complete(connp);", 'C03.a')
+M('c03b-copy-byte-returns-data', 'C03', 'break', RQ, "    (X)->in_stream_offset++; \\\n} else { \\\n    return HTP_DATA_BUFFER; \\\n}", "    (X)->in_stream_offset++; \\\n} else { \\\n    return HTP_DATA; \\\n}", 'C03.b')
+M('c03b-keep-macro-as-if', 'C03', 'keep', RS, "#define OUT_COPY_BYTE_OR_RETURN(X) \\\nif ((X)->out_current_read_offset < (X)->out_current_len) { \\", "#define OUT_COPY_BYTE_OR_RETURN(X) \\\nif (!((X)->out_current_read_offset >= (X)->out_current_len)) { \\")
+M('c03b-headers-forget-clear', 'C03', 'break', RS, "                htp_connp_res_clear_buffer(connp);\n\n                // We've seen all response headers.", "                // We've seen all response headers.", 'C03.b')
+M('c03b-state-reads-raw-span', 'C03', 'break', RQ, "            if (htp_connp_req_consolidate_data(connp, &data, &len) != HTP_OK) {\n                return HTP_ERROR;\n            }\n\n            connp->in_tx->request_message_len += len;", "            data = connp->in_current_data + connp->in_current_consume_offset;\n            len = connp->in_current_read_offset - connp->in_current_consume_offset;\n\n            connp->in_tx->request_message_len += len;", 'C03.b')
+M('c03c-buffer-overwrites', 'C03', 'break', RS, "        memcpy(connp->out_buf + connp->out_buf_size, data, len);", "        memcpy(connp->out_buf, data, len);", 'C03.c')
+M('c03c-size-not-advanced', 'C03', 'break', RQ, "        memcpy(connp->in_buf + connp->in_buf_size, data, len);\n        connp->in_buf_size = newsize;", "        memcpy(connp->in_buf + connp->in_buf_size, data, len);\n        connp->in_buf_size = len;", 'C03.c')
+M('c03d-new-lookahead', 'C03', 'break', RQ, "        // Have we reached the end of the line?\n        if (connp->in_next_byte == LF) {\n            return htp_connp_REQ_LINE_complete(connp);", "        // Have we reached the end of the line?\n        if (connp->in_next_byte == LF && !(connp->in_current_read_offset < connp->in_current_len && connp->in_current_data[connp->in_current_read_offset] == ' ')) {\n            return htp_connp_REQ_LINE_complete(connp);", 'C03.d')
+M('c03e-rewind-to-consume', 'C03', 'break', RS, "    if (connp->out_current_read_offset < (int64_t)bytes_left) {\n        connp->out_current_read_offset=0;\n    } else {\n        connp->out_current_read_offset-=bytes_left;\n    }", "    connp->out_current_read_offset = connp->out_current_consume_offset;", 'C03.e')
